@@ -676,6 +676,8 @@ def gen_eigen(rng, n):
             tolerance = rtol(rng)
         dim = len(M)
         expect = {'kind': 'eigen'}
+        if not isinstance(tolerance, str) and abs(c) * math.sqrt(sum(abs(z) ** 2 for z in v0)) <= 16 * tolerance:
+            c = c * 32
         if kind == 'scaled':
             st, expect = vec_str([c * z for z in v0]), {'kind': 'member'}
         elif kind == 'perturbed':
@@ -1135,6 +1137,13 @@ def oracle(spec, run):
     if kind == 'member':
         if accepted(run, ag):
             return None
+        if name in ('eigen', 'span', 'phase') and not isinstance(tolerance, str) and run.calls:
+            # a vector whose norm is within the absolute tolerance of zero counts as zero: no claim near that threshold
+            try:
+                if float(np.linalg.norm(np.array(run.calls[-1]['student'], dtype=complex))) <= 8 * float(tolerance):
+                    return None
+            except Exception:
+                pass
         finding = None
         if name == 'between' and run.calls and isinstance(run.calls[-1]['student'], complex) and \
                 run.calls[-1]['student'].imag == 0 and is_generic(run):
